@@ -181,7 +181,9 @@ EdAppend(st, k) ==
 EdDelete(st) ==
     LET b == Cur(st)  n == Len(b.lb.lines) IN
     IF n = 0 THEN Ret(st, 1)
-    ELSE IF st.row >= n THEN Ret(st, 0)         \* the current line lies beyond the text (after an undo): nothing to delete
+    (* the current line lies beyond the text (after an undo): it counts as the position after the last line and
+       becomes that; nothing is deleted *)
+    ELSE IF st.row >= n THEN [st EXCEPT !.row = n, !.ret = 0]
     ELSE [st EXCEPT !.tab[1].lb = Lb!Edit(b.lb, st.row, st.row + 1, <<>>, FALSE), !.ret = 0]
 (* ":1": the first line becomes current (and is printed) *)
 EdTop(st) == IF Len(Cur(st).lb.lines) = 0 THEN Ret(st, 1) ELSE [st EXCEPT !.row = 0, !.ret = 0]
